@@ -329,7 +329,11 @@ def run(sx, kind, tkind, nsym=3, via_list=False, pin="a", origin_mode="sym", nor
     for k, v in before.items():
         sx.prove_vec_close(spec[1][k], v, f"{kind}.{tkind}: argument array '{k}' is not modified",
                            key=f"C09:{kind}:{tkind}:argument-mutated:{k}")
-    swap = kind in OPERATIONS and tkind == "mirror" and not via_list
+    if via_list and kind in OPERATIONS and tkind == "mirror":
+        # documented (the library warns about it): a Mirror in a transformation list leaves an Operation inside-out and
+        # "use Operation.invert() to put it back in shape"; with that step the list equals the method call
+        e2.invert()
+    swap = kind in OPERATIONS and tkind == "mirror"
     g2 = geometry(sx, kind, e2, swap=swap)
     tag = f"{kind}.{'transform([' + tkind + '])' if via_list else tkind}"
     _compare(sx, kind, tag, g1, g2, A, ":list" if via_list else "")
